@@ -78,6 +78,7 @@ class SimClock(object):
                     f'parent still polling {sim.polls_after_done} sleeps after every task completed')
         elif not sim.queue:
             raise SimDeadlock('parent sleeps, no task can make progress and not all tasks are ready')
+        st['busy_polls'] = 0
         sim.advance(float(seconds))
 
     def time(self):
@@ -99,7 +100,16 @@ class SimAsyncResult(object):
         self._payload = None
 
     def ready(self):
-        self._pool._state['ready_calls'] += 1
+        st = self._pool._state
+        st['ready_calls'] += 1
+        if not self._done:
+            # a caller that polls without sleeping still lets real time pass: after a burst of
+            # unanswered polls the simulation advances to its next event (busy-wait loops terminate)
+            st['busy_polls'] = st.get('busy_polls', 0) + 1
+            if st['busy_polls'] >= 200:
+                st['busy_polls'] = 0
+                if not self._pool._sim.run_next():
+                    raise SimDeadlock('caller busy-polls a task that can never complete')
         return self._done
 
     def successful(self):
